@@ -27,6 +27,33 @@ CHECKS = {
         "value stack is not part of the state key (guarded by the "
         "cached-vs-uncached comparison).",
         design="DESIGN.md section 3 C13, section 2 E2"),
+    "C04": dict(
+        engine="opseq",
+        technique="explicit-state BFS over writer-session histories executed "
+        "on the real code (state caching on the canonicalised metadata tree) "
+        "with an independent recount oracle",
+        text="All histories of completed sessions up to depth 3 (quick) / 3-5 "
+        "(thorough) over a 40-56 letter alphabet (root / x / y / x/y "
+        "sub-directory fillers, multi-writer calls incl. an idle writer, "
+        "4 split patterns, kept or reopened handle), formats fb/npz/tfrec; "
+        "in every reached state the whole metadata tree is recounted from "
+        "the decoded shard files.",
+        note="Sessions complete (no crash); one live handle; counts per "
+        "session from a fixed small set; canonical state drops uuids, "
+        "timestamps and payload ids.",
+        design="DESIGN.md section 3 C04, section 2 E1"),
+    "C08": dict(
+        engine="opseq",
+        technique="explicit-state BFS over writer-session histories executed "
+        "on the real code, reference model = dict split -> list of ids",
+        text="Same search as C04 with the refused Dataset.create as an extra "
+        "letter: after every history the decoded content of every split "
+        "equals the reference model (nothing lost, nothing duplicated, "
+        "exactly the new examples added), every allowed session completes, "
+        "create on an existing dataset raises and leaves the directory "
+        "byte-identical.",
+        note="As C04.",
+        design="DESIGN.md section 3 C08, section 2 E1"),
 }
 
 NOT_YET = "check not built yet in this session (planned, see DESIGN.md section 3)"
@@ -75,6 +102,11 @@ def main() -> None:
             "add_only": True,
         },
         "engines": [
+            {"name": "opseq", "path": "vf/opseq.py",
+             "serves_properties": ["C04", "C08", "C05", "C10", "C03", "C16"],
+             "kind_free_text": "BFS over operation histories of the real "
+                               "writer with state caching and a reference "
+                               "model"},
             {"name": "sched", "path": "vf/sched.py + vf/lazypool_mc.py",
              "serves_properties": ["C13", "C14", "C02", "C07"],
              "kind_free_text": "cooperative scheduler + choice-sequence DFS "
